@@ -43,8 +43,9 @@ def correspondence(ctx):
                     ctx.count(("normalize", z, sd, mx, len(shape)), True)
                     ctx.compare("normalize_ic vs IC.normalizeIc", impl, model, cell=("normalize", z, sd, mx))
     # clamping wrapper on top of a generator
-    for D in (1, 2):
-        base = ic.RandomTruncatedFourierSeries(D, cutoff=3)
+    for D in (1, 2, 1, 2, 1):
+        # sign-changing, strictly positive and strictly negative inner draws
+        base = ic.RandomTruncatedFourierSeries(D, cutoff=3, **[{}, {"offset_range": (3.0, 4.0)}, {"offset_range": (-5.0, -4.0)}][int(rng.integers(0, 3))])
         for lim in [(0.0, 1.0), (-2.0, 3.5)]:
             key = jr.PRNGKey(int(rng.integers(0, 1000)))
             inner = np.asarray(base(10, key=key))
@@ -161,6 +162,19 @@ def probe_wrappers(D, N, seed):
     c = np.asarray(ic.ClampingICGenerator(base, limits=(-1.5, 4.0))(N, key=key))
     res["clamp"] = [float(c.min()), float(c.max())]
     ok = abs(c.min() + 1.5) < 1e-12 and abs(c.max() - 4.0) < 1e-12 and c.shape == u.shape
+    # ... whatever the sign of the inner draw: strictly positive (offset series, Gaussian blobs, a nested clamp with a
+    # positive lower limit), strictly negative, scaled
+    inners = {"offset+": ic.RandomTruncatedFourierSeries(D, cutoff=3, offset_range=(3.0, 4.0)),
+              "offset-": ic.RandomTruncatedFourierSeries(D, cutoff=2, offset_range=(-6.0, -5.0)),
+              "blobs": ic.RandomGaussianBlobs(D, num_blobs=2),
+              "nested": ic.ClampingICGenerator(base, limits=(0.2, 0.8)),
+              "scaled-nested": ic.ScaledICGenerator(ic.ClampingICGenerator(base, limits=(0.5, 1.0)), scale=-3.0)}
+    for lab, g in inners.items():
+        for lim in ((0.0, 1.0), (-1.5, 0.5), (0.2, 0.8)):
+            cc = np.asarray(ic.ClampingICGenerator(g, limits=lim)(N, key=key))
+            e = max(abs(float(cc.min()) - lim[0]), abs(float(cc.max()) - lim[1]))
+            res[f"clamp[{lab}]{lim}"] = e
+            ok = ok and e < 1e-12 and cc.shape == (1,) + (N,) * D
     s = np.asarray(ic.ScaledICGenerator(base, scale=2.5)(N, key=key))
     res["scaled"] = float(np.max(np.abs(s - 2.5 * u)))
     ok = ok and res["scaled"] < 1e-12
